@@ -120,6 +120,24 @@ def c08_block_decoder(rep, crate, cfg):
         # the accumulating loop is the loop over the packets parameter
         ok_loop = bool(ls.loops) and ls.loops[0]["source"] == P(2)
         rep.check(ok_loop, R1, f.key, "packet-loop", where, "the accumulation loop iterates the packets handed in", None, cfg)
+        # every packet of the batch is examined: the loop is left only when the iterator is exhausted, or when all K
+        # source symbols are present (the answer is then determined); any other early break/return makes the outcome
+        # depend on how the same symbols are batched
+        extra_exits = []
+        if ok_loop:
+            lp0 = ls.loops[0]
+            body = ls.loops_raw[lp0["head"]]
+            live = f.cfg._can_reach_exit()
+            exits = [(b, s_) for b in sorted(body) for s_ in f.cfg.succ[b] if s_ not in body and s_ in live]
+            n_iter = 0
+            for b, s_ in exits:
+                t_ = f.blocks[b]["term"]
+                if t_["t"] == "switch" and ls.tb.operand(b, None, t_["discr"]) == ("discr", lp0.get("next_term")):
+                    n_iter += 1
+                else:
+                    extra_exits.append((b, s_))
+            rep.check(n_iter == 1, R1, f.key, "intake-exhausts-iterator", where,
+                      "the accumulation loop has the exit 'packet iterator exhausted'", {"exit_edges": ["bb%d->bb%d" % e for e in exits]}, cfg)
         pid = ("field", ("call", "base::EncodingPacket::split", (ITEM,)), 0)
         ESI = N(("call", "base::PayloadId::encoding_symbol_id", (("ref", pid),)))
         INS = None
@@ -174,6 +192,21 @@ def c08_block_decoder(rep, crate, cfg):
         rep.check(okc, R1, f.key, "classification", where,
                   "a packet is stored as repair iff its own ESI >= K, as source otherwise (same ESI term as the novelty test)",
                   {"cond": fmt(cls[0])[:120] if cls else None}, cfg)
+        bad_exits = []
+        for b, s_ in extra_exits:
+            bc = ls.tb.branch_cond(b)
+            okx = False
+            if bc is not None and kfield is not None:
+                c_, tt, ft = bc
+                c_ = N(ls.canon(c_))
+                leaving_true = (tt == s_)
+                if leaving_true and c_ in (N(("op", "Eq", fld(counter_idx), fld(kfield))), N(("op", "Le", fld(kfield), fld(counter_idx)))):
+                    okx = True
+            if not okx:
+                bad_exits.append("bb%d->bb%d" % (b, s_))
+        rep.check(not bad_exits, R1, f.key, "intake-total", where,
+                  "no packet of a batch is skipped: the accumulation loop is left early only when all K source symbols are present",
+                  {"early_exits": bad_exits}, cfg)
         src = [e for t, e in muts if t == "source_symbols"][0]
         rep.check(src.get("_ix") == ESI, R1, f.key, "slot-index", where, "the source symbol is stored in slot [its own ESI]",
                   {"index": fmt(src.get("_ix"))[:100] if src.get("_ix") else None}, cfg)
@@ -636,6 +669,115 @@ def c01_solve(rep, crate, cfg, r):
             oku = oku and N(lp["source"]) == N(("agg", "adt:std::ops::Range", (("const", 0), fld(rng_k(crate, r, lp)))))
         rep.check(oku, R, f.key, "assemble-by-index", where,
                   "for i in 0..K the result gets, at position i, the received symbol i if present else the rebuilt one", None, cfg)
+
+
+def c01_rebuild_fresh(rep, crate, cfg):
+    """C01-R3 (freshness): a rebuilt source symbol is the XOR of intermediate symbols starting from nothing: either the
+    rebuilding routine overwrites the buffer with the first term (first-flag discipline), or every caller zero-fills the
+    buffer in the same loop iteration before the call.  The buffer is reused across missing symbols."""
+    R = "C01-R3"
+    p = find_sbd(crate)
+    rbs = [f for k, f in crate.fns.items() if f.f.get("impl_self", {}).get("adt") == p and
+           any((t.get("callee") or "").endswith("constraint_matrix::enc_indices") for _, t in f.calls())]
+    rep.floor(R, len(rbs), 1, "routine rebuilding a source symbol from intermediate symbols", cfg)
+    for f in rbs:
+        tb = terms.TermBuilder(f)
+        where = f.loc()
+        clo = None
+        for bi, t in f.calls():
+            if (t.get("callee") or "").endswith("constraint_matrix::enc_indices"):
+                for a in t["args"]:
+                    x = tb.operand(bi, "T", a)
+                    if x[0] == "agg" and x[1].startswith("closure:"):
+                        clo = x
+        g = crate.fns.get(clo[1][len("closure:"):]) if clo else None
+        if g is None:
+            rep.bad(R, f.key, "rebuild-closure", where, "the rebuilding routine passes a closure to enc_indices", None, cfg)
+            continue
+        # which capture is the destination: the one that is the &mut [u8] parameter of f
+        tg = terms.TermBuilder(g)
+        over, acc = [], []
+        for bi, t in g.calls():
+            cal = t.get("resolved") or t.get("callee") or ""
+            if not t["args"]:
+                continue
+            a0 = tg.operand(bi, "T", t["args"][0])
+            m = match(("deref", ("field", ("deref", P(1)), V("j"))), a0) or match(("field", ("deref", P(1)), V("j")), a0)
+            if m is None or not isinstance(m["j"], int) or m["j"] >= len(clo[2]) or clo[2][m["j"]][0] != "param":
+                continue
+            if cal.endswith("copy_from_slice"):
+                over.append((bi, m["j"]))
+            elif cal.endswith("octets::add_assign"):
+                acc.append((bi, m["j"]))
+        callee_fresh = False
+        det = {"overwrites": len(over), "accumulates": len(acc)}
+        if over and acc:
+            # first-flag discipline: branch on a captured bool initialised true; overwrite on the true side followed by flag = false
+            for blk in g.blocks:
+                if blk["cleanup"] or blk["term"]["t"] != "switch":
+                    continue
+                d = tg.operand(blk["i"], None, blk["term"]["discr"])
+                m = match(("deref", ("deref", ("field", P(1), V("j")))), d) or match(("deref", ("field", ("deref", P(1)), V("j"))), d)
+                if m is None or not isinstance(m["j"], int) or m["j"] >= len(clo[2]):
+                    continue
+                init = clo[2][m["j"]]
+                while init[0] == "ref":
+                    init = init[1]
+                arms = dict((v, tgt) for v, tgt in blk["term"]["arms"])
+                t_false = arms.get(0)
+                t_true = blk["term"]["otherwise"]
+                if t_false is None:
+                    continue
+                r_true = g.cfg.reachable_from(t_true) - g.cfg.reachable_from(t_false)
+                r_false = g.cfg.reachable_from(t_false) - g.cfg.reachable_from(t_true)
+                clears = False
+                for b in r_true:
+                    for si, st in enumerate(g.blocks[b]["stmts"]):
+                        if st["s"] == "assign" and st["rv"]["r"] == "use" and st["rv"]["a"].get("o") == "const" and st["rv"]["a"].get("v") == 0 \
+                                and st["lhs"]["proj"] and tg.place(b, si, st["lhs"]) in (d, ):
+                            clears = True
+                callee_fresh = init == ("const", 1) and all(b in r_true for b, _ in over) and all(b in r_false for b, _ in acc) and clears
+                det["flag_initial"] = fmt(init)
+                det["flag_cleared_after_overwrite"] = clears
+        if callee_fresh:
+            rep.ok(R, where, "%s overwrites the buffer with the first term and accumulates the rest (first-flag: initialised true, "
+                   "cleared on the overwriting side)" % f.key.split("::")[-1], det, cfg)
+        # callers
+        sites = 0
+        for k2, h in sorted(crate.fns.items()):
+            for bi, t in h.calls():
+                if (t.get("resolved") or t.get("callee")) != f.key:
+                    continue
+                sites += 1
+                th = terms.TermBuilder(h)
+                # index of the destination argument = the &mut [u8] parameter
+                dj = [j for j, x in enumerate(f.f.get("inputs", [])) if x.get("k") == "ref" and x.get("mut") and "[u8]" in str(x.get("s", x))]
+                dj = dj[0] if dj else 1
+                buf = th.operand(bi, "T", t["args"][dj])
+                while buf[0] in ("ref", "deref", "deref*"):
+                    buf = buf[1]
+                lo = h.cfg.loops()
+                def inner(b):
+                    best = None
+                    for hd, body in lo.items():
+                        if b in body and (best is None or len(body) < len(lo[best])):
+                            best = hd
+                    return best
+                caller_fresh = False
+                for b2, t2 in h.calls():
+                    c2 = t2.get("resolved") or t2.get("callee") or ""
+                    if c2.endswith("::fill") and len(t2["args"]) == 2 and h.cfg.dominates(b2, bi) and inner(b2) == inner(bi):
+                        x = th.operand(b2, "T", t2["args"][0])
+                        while x[0] in ("ref", "deref", "deref*"):
+                            x = x[1]
+                        v = th.operand(b2, "T", t2["args"][1])
+                        if x == buf and v == ("const", 0):
+                            caller_fresh = True
+                rep.check(callee_fresh or caller_fresh, R, k2, "rebuilt-symbol-fresh", mir.stmt_loc(t),
+                          "%s: the reused buffer holds nothing of an earlier symbol when a missing symbol is rebuilt into it "
+                          "(routine overwrites first, or the caller zero-fills in the same iteration)" % k2.split("::")[-1],
+                          dict(det, callee_fresh=callee_fresh, caller_zero_fills=caller_fresh), cfg)
+        rep.floor(R, sites, 2, "call sites of the rebuilding routine", cfg)
 
 
 def rng_k(crate, r, lp):
